@@ -11,7 +11,8 @@
        variant; typescript.rs:276, go.rs:301, python.rs:368 are `unreachable!()` otherwise).
    Both are computable predicates over the parsed data. *)
 From Coq Require Import String.
-From TS Require Import Model.Str Model.Outcome Model.Types Model.Parse Model.TopsortAlgo Model.Topsort Model.Lang.Common.
+From TS Require Import Model.Str Model.Outcome Model.Unicode Model.Syntax Model.Types Model.Parse Model.Reconcile
+                       Model.TopsortAlgo Model.Topsort Model.Lang.Common.
 
 Definition panics_only {A} (P : string -> Prop) (o : outcome A) : Prop :=
   match o with Panic s => P s | _ => True end.
@@ -61,6 +62,27 @@ Definition pd_wf (pd : parsed) : bool :=
   forallb (fun e => item_wf (ItEnum e)) (p_enums pd) &&
   forallb (fun a => item_wf (ItAlias a)) (p_aliases pd) &&
   forallb (fun c => item_wf (ItConst c)) (p_consts pd).
+
+(* ---- the single-file pipeline, as the whole-pipeline driver command gen_src (ocaml/drv_gen.ml) composes it:
+   parser::parse on the file; nothing to generate / the parse errors are reported (exit 1) / reconcile, then the
+   back end's generate_types ---- *)
+Definition reconcile_single (pd : parsed) : parsed :=
+  match Reconcile.reconcile_aliases [([], pd)] with
+  | [(_, pd')] => pd'
+  | _ => pd
+  end.
+
+Definition single_file_run {C : Type} (gen : C -> parsed -> outcome str)
+    (uc : Unicode.unicode) (tstr : str -> option Syntax.ty) (T : list str) (c : C) (f : Syntax.file) : outcome (option str) :=
+  do r <- parse_file uc tstr T f;
+  match r with
+  | None => Ok None                                   (* no #[typeshare] marker / nothing annotated: no output *)
+  | Some pd =>
+    match p_errors pd with
+    | e :: _ => Err e                                 (* the parse errors of the file are the diagnostic *)
+    | [] => omap Some (gen c (reconcile_single pd))
+    end
+  end.
 
 (* ---- topsort: dependency collection completes for every item ---- *)
 Definition deps_complete (things : list ritem) : bool :=
